@@ -71,8 +71,114 @@ def load_stream(ctx, g, h):
                 ctx.add("oracle", "leak-between-irs", "a node of one loaded copy is found through the other", {"file": buf.getvalue().hex()})
 
 
+def any_block_scenario(ctx, g, rng, rounds):
+    """Containment is by `interval.blocks`, whatever the class of a member: bare gtirb.ByteBlock objects and user subclasses of the
+    block classes, proxies, symbols, sections and modules take part in whole-subtree attaches, detaches and moves at every level;
+    after each step every IR answers get_by_uuid exactly for what it contains."""
+    class MyCode(g.CodeBlock):
+        pass
+
+    class MyByte(g.ByteBlock):
+        pass
+
+    class MySym(g.Symbol):
+        pass
+    for rd in range(rounds):
+        irs = [g.IR(), g.IR()]
+        mods = [g.Module(name="m%d" % i) for i in range(3)]
+        secs = [g.Section(name="s%d" % i) for i in range(3)]
+        bis = [g.ByteInterval(size=32, address=rng.choice([None, 0, 64])) for _ in range(3)]
+        blocks = [cls(size=2, offset=4 * i) for i, cls in enumerate((g.CodeBlock, g.DataBlock, g.ByteBlock, MyCode, MyByte, g.ByteBlock))]
+        others = [g.ProxyBlock(), MySym("y"), g.Symbol("z")]
+        everything = irs + mods + secs + bis + blocks + others
+        steps = []
+
+        def check(what):
+            steps.append(what)
+            for k, ir in enumerate(irs):
+                inside = {id(x): x for x in world.reach(g, ir)}
+                for x in everything:
+                    got = ir.get_by_uuid(x.uuid)
+                    want = x if id(x) in inside else None
+                    if got is not want:
+                        ctx.add("oracle", "any-block-cache", "after %s: ir%d.get_by_uuid(uuid of a %s) gives %s, containment gives %s"
+                                % (what, k, type(x).__name__, type(got).__name__ if got is not None else None, type(want).__name__ if want is not None else None),
+                                {"steps": list(steps)})
+                        return False
+            return True
+        ok = True
+        # most of the structure exists before any module meets an IR, so that whole populated subtrees are attached and moved
+        for b in blocks:
+            if rng.random() < 0.8:
+                b.byte_interval = rng.choice(bis)
+        for bi in bis:
+            if rng.random() < 0.8:
+                bi.section = rng.choice(secs)
+        for sec in secs:
+            if rng.random() < 0.8:
+                sec.module = rng.choice(mods)
+        for o in others:
+            if rng.random() < 0.7:
+                o.module = rng.choice(mods)
+        if not check("initial structure (no module in an IR yet)"):
+            continue
+        for st in range(14):
+            r = rng.random() if st % 2 else 0.7 + 0.3 * rng.random()
+            try:
+                if r < 0.3:
+                    b, bi = rng.choice(blocks), rng.choice(bis + [None])
+                    if rng.random() < 0.5 or bi is None:
+                        b.byte_interval = bi
+                    else:
+                        bi.blocks.update(x for x in [b, rng.choice(blocks)])
+                    what = "a %s joins interval %s" % (type(b).__name__, bi is not None and bis.index(bi))
+                elif r < 0.45:
+                    bi, s = rng.choice(bis), rng.choice(secs + [None])
+                    bi.section = s
+                    what = "interval -> section %s" % (s is not None and secs.index(s))
+                elif r < 0.6:
+                    s, m = rng.choice(secs), rng.choice(mods + [None])
+                    s.module = m
+                    what = "section -> module %s" % (m is not None and mods.index(m))
+                elif r < 0.7:
+                    o, m = rng.choice(others), rng.choice(mods + [None])
+                    o.module = m
+                    what = "%s -> module %s" % (type(o).__name__, m is not None and mods.index(m))
+                else:
+                    m, ir = rng.choice(mods), rng.choice(irs)
+                    q = rng.random()
+                    if q < 0.3:
+                        m.ir = rng.choice([ir, None])
+                        what = "module.ir assigned"
+                    elif q < 0.5:
+                        ir.modules.append(m)
+                        what = "modules.append"
+                    elif q < 0.65:
+                        ir.modules.insert(0, m)
+                        what = "modules.insert"
+                    elif q < 0.8 and m in ir.modules:
+                        ir.modules.remove(m)
+                        what = "modules.remove"
+                    elif q < 0.9:
+                        del ir.modules[:]
+                        what = "del modules[:]"
+                    else:
+                        ir.modules.extend(iter([m, rng.choice(mods)]))
+                        what = "modules.extend"
+            except Exception as e:  # noqa: BLE001
+                ctx.add("oracle", "any-block-cache", "step raised %s" % type(e).__name__, {"steps": list(steps)})
+                ok = False
+                break
+            ctx.count("any_block_steps")
+            if not check(what):
+                ok = False
+                break
+        ctx.case("any-block:%d:%s" % (rd, steps), True)
+
+
 def run(ctx):
     g = gtirb_from_repo.load()
+    any_block_scenario(ctx, g, ctx.rng, 30 if ctx.quick else 600)
     nh, ln = (60, 30) if ctx.quick else (1200, 60)
     hists = []
     for _ in range(nh):
